@@ -58,7 +58,7 @@ claim(
     "A (byte channel)",
     "DESIGN.md §4, §8 C08",
     "deterministic simulation: seeded fault-sequence search; differential oracle between the real validator (state tapped at picture_decode) and the real deserialiser with harness-side dequantisation/DC prediction",
-    "Seeded search over fault sequences (mostly slice payload bits, length bytes, header fields) on real encoder output; for every stream the real validator still accepts, the real deserialiser must list the same data units, parse parameters, decoded video parameters, transform parameters and quantisation matrix, and its coefficients (placed, dequantised and DC-predicted by independent harness code) must equal the validator's transform data captured at picture_decode.",
+    "Seeded search over fault sequences (mostly slice payload bits, length bytes, header fields) on real encoder output; for every stream the real validator still accepts, the real deserialiser (plain, and driven the way the viewer drives it: seek back and re-read every value) must list the same data units, parse parameters, decoded video parameters, transform parameters and quantisation matrix, and its coefficients (placed, dequantised and DC-predicted by independent harness code) must equal the validator's transform data captured at picture_decode.",
     _A_NOTE + " Slice geometry helpers are shared between both parsers and the oracle.",
 )
 claim(
@@ -86,7 +86,7 @@ claim(
     _A_NOTE + " Scope decided by a pre-scan with the real MonitoredDeserialiser.",
 )
 
-_B_NOTE = "Data-unit bodies are real encoder output for tiny formats and are only placed under a governing header that frames them (composition rule); the level VALUE table (LEVEL_CONSTRAINTS) is replaced in the harness process by a permissive row so that tiny pictures can carry any level number, while the level ORDERING patterns (LEVEL_SEQUENCE_RESTRICTIONS) and symbol_re are real. Sampling, not proof."
+_B_NOTE = "Data-unit bodies are real encoder output for tiny formats and are only placed under a governing header that frames them (composition rule); the level VALUE table (LEVEL_CONSTRAINTS) is replaced in the harness process by one row per level (level fixed, everything else permitted) so that tiny pictures can carry any level number, while the level ORDERING patterns (LEVEL_SEQUENCE_RESTRICTIONS) and symbol_re are real; a minority arm of C01 uses QSIF525 pictures under the REAL level-1 value table. Sampling, not proof."
 
 claim(
     "C01",
@@ -110,8 +110,8 @@ claim(
     "C (simulated file system, at-rest faults)",
     "DESIGN.md §6, §8 C23",
     "deterministic simulation: raw/JSON picture files written by the real writer to a simulated file system, seeded at-rest fault lists, real reader and comparison tool judged against a harness-side raw decoder",
-    "Seeded search over formats (sizes, subsampling, coding modes, bit depths 1-64 incl. non-byte multiples), in-range samples, picture numbers up to 2^32-1 and explicit at-rest fault lists (sample-bit vs padding-bit flips, truncation/extension, changed metadata, missing JSON). The real file_format.write/read must round-trip; vc2-picture-compare (function and main, on files and directories) must exit 0 exactly when an independent little-endian reference decoder finds all samples and metadata equal, and report the reference's differing-pixel counts.",
-    "SimFS stands in for the disk; JSON faults keep the metadata valid JSON; behaviour for missing directories is not asserted. Sampling, not proof.",
+    "Seeded search over formats (sizes, subsampling, coding modes, bit depths 1-64 incl. non-byte multiples), in-range samples, picture numbers up to 2^32-1 and explicit at-rest fault lists (sample-bit vs padding-bit flips, truncation/extension, changed, truncated or corrupted metadata, missing JSON). The real file_format.write/read must round-trip; vc2-picture-compare (function and main, on files and directories) must exit 0 exactly when an independent little-endian reference decoder finds all samples and metadata equal, and report the reference's differing-pixel counts.",
+    "SimFS stands in for the disk; for metadata a harness-side reader finds damaged (invalid JSON / out-of-range fields) only 'never exit 0' is asserted; behaviour for missing directories is not asserted. Sampling, not proof.",
 )
 claim(
     "C24",
